@@ -10,20 +10,29 @@ LEAN_MODULES = ["EzdxfVerif.Props.C05"]
 DRIVER_DEPS = ["EzdxfVerif.Model.Doc", "Drivers.Proto"]
 RULE = (
     "correspondence: operation histories (add/ins/unlink/add_entity/move/delete/destroy/copy_to_layout/purge/"
-    "new+delete+rename block/new+delete+rename+activate layout/add+remove layer/save+reload) run on a real Drawing "
+    "new+delete+rename block/new+delete+rename+activate layout/add+remove layer/save+reload; session 3: linked parents "
+    "POLYLINE+VERTEX+SEQEND and INSERT+ATTRIB+SEQEND with their sub-entity handles, copy_to_layout of linked parents, "
+    "insert.explode(), doc.audit() as a step, add/remove/duplicate entries of the LTYPE/STYLE/DIMSTYLE/APPID/UCS/VIEW tables, "
+    "new/set_data/delete group) run on a real Drawing "
     "through the public API and on the Lean Doc machine; after EVERY step outcome (ok / exception class) and the "
     "observables (per block record: len and live content in order; per entity ever created: alive, owner, db "
-    "membership, get_layout(); block names; layouts in tab order; active layout; layers) are compared. Histories: "
+    "membership, get_layout(), per sub-entity handle/owner/db membership/paperspace flag; block names; layouts in tab "
+    "order; active layout; layers; table entries; groups with their live members) are compared. Histories: "
     "exhaustive short ones over a small universe + seeded random ones; non-trivial = history contains a mutation after "
     "the first create; distinct by hash of the request lines. oracle: on the same runs the property's own predicates "
     "(one owner, handles unique and never reused, lookup by handle, rejected => unchanged, name lookups)."
 )
 TRUSTED_BASE = [
-    "the model checks (does not predict) the fresh handles chosen by the implementation",
-    "entities are modelled as LINE/INSERT without sub-entities; linked entities (POLYLINE/ATTRIB), explode, groups, audit as a history step are outside the model",
+    "the model checks (does not predict) the fresh handles chosen by the implementation (entity, sub-entities, block record, GROUP object); the TEXT replacing an exploded ATTRIB takes over the handle of the ATTRIB (documented in explode.attrib_to_text) and the model checks that this handle is no handle of another top-level entity",
+    "sub-entities (VERTEX / ATTRIB / SEQEND) are modelled as handles attached to their parent: owner = parent handle, liveness / database membership / paperspace flag follow the parent (LinkedEntities.set_owner/destroy) - compared per sub-entity after every step; the never-written SEQEND of an INSERT without ATTRIBs is not tracked",
+    "entity kinds: LINE, INSERT, POLYLINE(2d)+VERTEX+SEQEND, INSERT+ATTRIB+SEQEND, TEXT (from explode); tables LTYPE/STYLE/DIMSTYLE/APPID/UCS/VIEW as key sets; groups as (name, handle, members)",
 ]
-ASSUMPTIONS = ["ASCII block/layout/layer names", "layout.add_entity() is only applied to unlinked entities (documented caller obligation); the misuse stream only checks rejected => unchanged"]
-OPEN = ["explode and audit as history steps (tier 2)"]
+ASSUMPTIONS = ["ASCII block/layout/layer/table/group names", "layout.add_entity() is only applied to unlinked entities (documented caller obligation); the misuse stream only checks rejected => unchanged",
+               "explode() is not applied to an INSERT that lies inside the block it references (cyclic block definition, invalid DXF: explode_block_reference iterates the block while appending to it and never returns)"]
+OPEN = ["name lookups of blocks, layouts and layers are corresponded per step, not proved as a refinement (table entries and groups: proved, spec_add_entry / spec_remove_entry / spec_duplicate_entry / table_keys_unique / spec_new_group / spec_delete_group)",
+        "insert.explode(target_layout) with an explicit target other than the own layout: oracle O2 only (the model explodes into the layout of the INSERT)",
+        "VPORT table (duplicate names allowed), dictionary entries other than groups, attribs added/removed after creation are outside the model",
+        "query language beyond '*' and attribute filters (oracle only)"]
 
 
 def histories(ctx):
@@ -65,7 +74,8 @@ def correspond(ctx):
             ctx.hist("X1 doc machine", f"{c[0][0]}:{c[1].split(':')[-1] if c[1] != 'ok' else 'ok'}")
     # exhaustive short histories over a small universe (fixed op templates)
     depth = ctx.n(2, 3)
-    templates = ["add0", "add1", "unlink", "addex1", "move", "del", "destroy", "copy", "purge", "newblock", "delblock", "reload"]
+    templates = ["add0", "add1", "unlink", "addex1", "move", "del", "destroy", "copy", "purge", "newblock", "delblock", "reload",
+                 "poly", "insattr", "explode", "audit", "group", "delgroup", "entry"]
     for combo in itertools.product(templates, repeat=depth):
         r = Runner("R2010")
         lines = [(r.init_line(), "ok;" + r.observe())]
@@ -85,6 +95,28 @@ def correspond(ctx):
                 op = ("newblock", "B1")
             elif t == "delblock":
                 op = ("delblock", "B1", True)
+            elif t == "poly":
+                op = ("addl", ks[0], None, 2)
+            elif t == "insattr":
+                op = ("addl", ks[0], "B1", 1)
+            elif t == "audit":
+                op = ("auditstep",)
+            elif t == "delgroup":
+                op = ("delgroup", "g1")
+            elif t == "entry":
+                op = ("addentry", 2, "E1")
+            elif t == "explode":
+                ins = [h for h in hs if r.ents[h].is_alive and r.ents[h].dxftype() == "INSERT"]
+                if not ins:
+                    continue
+                op = ("explode", ins[-1])
+            elif t == "group":
+                if "G1" not in r.doc.groups:
+                    req, out = r.apply(("newgroup", "G1"))
+                    lines.append((req, out + ";" + r.observe()))
+                if last is None:
+                    continue
+                op = ("setgroup", "G1", [last])
             elif last is None:
                 continue
             elif t == "unlink":
@@ -108,8 +140,87 @@ def correspond(ctx):
             lines.append((req, out + ";" + r.observe()))
         for req, resp in lines:
             cases.append((req, resp, True))
+    # directed histories: nested block references x guarded deletes, group members x moves, explode of nested INSERTs
+    for hist in directed_histories():
+        r = Runner("R2010")
+        lines = [(r.init_line(), "ok;" + r.observe())]
+        for op in hist:
+            op = resolve(r, op)
+            if op is None:
+                continue
+            req, out = r.apply(op)
+            lines.append((req, out + ";" + r.observe()))
+            ctx.hist("X1 doc machine", f"directed:{op[0]}")
+        for req, resp in lines:
+            cases.append((req, resp, True))
     ctx.note(f"{nh} random histories, {len(templates) ** depth} exhaustive histories of depth {depth}+1")
     ctx.correspond("X1 doc machine", "C05", cases, build=DRIVER_DEPS)
+
+
+def resolve(r, op):
+    """directed histories name containers symbolically: 'msp', 'psp', ('blk', name); entities by creation index"""
+    def cont(c):
+        if c == "msp":
+            return hx(r.doc.modelspace().block_record_handle)
+        if c == "psp":
+            return hx(r.doc.layout("Layout1").block_record_handle)
+        b = r.doc.blocks.get(c[1])
+        return None if b is None else hx(b.block_record_handle)
+
+    def ent(i):
+        return r.order[i] if -len(r.order) <= i < len(r.order) else None
+
+    kind = op[0]
+    if kind in ("add",):
+        k = cont(op[1])
+        return None if k is None else ("add", k)
+    if kind == "ins":
+        k = cont(op[1])
+        return None if k is None else ("addl", k, op[2], op[3] if len(op) > 3 else 0)
+    if kind == "poly":
+        k = cont(op[1])
+        return None if k is None else ("addl", k, None, 2)
+    if kind in ("explode", "destroy"):
+        e = ent(op[1])
+        return None if e is None else (kind, e)
+    if kind == "move":
+        e, k1, k2 = ent(op[1]), cont(op[2]), cont(op[3])
+        return None if None in (e, k1, k2) else ("move", k1, e, k2)
+    if kind == "unlink":
+        e, k = ent(op[1]), cont(op[2])
+        return None if None in (e, k) else ("unlink", k, e)
+    if kind == "setgroup":
+        ms = [ent(i) for i in op[2]]
+        return None if None in ms else ("setgroup", op[1], ms)
+    return op
+
+
+def directed_histories():
+    out = []
+    # a block referenced only from inside another block (at any depth) is in use
+    for where in ("msp", "psp", ("blk", "OUTER")):
+        for name in ("INNER", "inner", "Inner"):
+            out.append([("newblock", "INNER"), ("newblock", "OUTER"), ("add", ("blk", "INNER")), ("ins", where, name),
+                        ("delblock", "INNER", True), ("delblock", "OUTER", True), ("delblock", "INNER", True), ("reload",),
+                        ("delblock", "inner", True)])
+    out.append([("newblock", "A"), ("newblock", "B"), ("newblock", "C"), ("add", ("blk", "C")), ("ins", ("blk", "B"), "C"),
+                ("ins", ("blk", "A"), "B"), ("ins", "msp", "A", 1), ("delblock", "C", True), ("delblock", "B", True),
+                ("explode", -1), ("delblock", "A", True), ("explode", -1), ("delblock", "B", True), ("auditstep",), ("reload",)])
+    # the active layout deleted / renamed through every spelling of its name, with two and three paperspace layouts
+    for n in ("L1", "l1", "L1".swapcase()):
+        for extra in ([], [("newlayout", "Second")]):
+            out.append([("newlayout", "L1")] + extra + [("activate", "L1"), ("dellayout", n), ("add", "psp"), ("reload",)])
+            out.append([("newlayout", "L1")] + extra + [("activate", n), ("renlayout", n, "L9"), ("dellayout", "l9"), ("reload",)])
+            out.append([("newlayout", "L1")] + extra + [("dellayout", "layout1"), ("dellayout", n), ("reload",)])
+    # runs of adjacent destroyed entities, then purge: len(layout) and the stored order are observables
+    for dead in ([0, 1], [1, 2], [0, 1, 2], [1, 2, 3], [0, 1, 2, 3], [0, 2], [0, 1, 3]):
+        out.append([("add", "msp")] * 4 + [("add", "psp")] + [("destroy", i) for i in dead] + [("purge",), ("add", "msp"), ("reload",)])
+    # group members moved / unlinked / destroyed, then save + reload and audit
+    for act in (("move", 0, "msp", "psp"), ("unlink", 0, "msp"), ("destroy", 0), ("move", 0, "msp", ("blk", "B"))):
+        for end in (("reload",), ("auditstep",)):
+            out.append([("newblock", "B"), ("add", "msp"), ("add", "msp"), ("poly", "msp"), ("newgroup", "G"),
+                        ("setgroup", "g", [0, 1, 2]), act, end, ("auditstep",), ("reload",)])
+    return out
 
 
 # ------------------------------------------------------------------ oracle on the real code
@@ -125,6 +236,7 @@ def oracle(ctx):
         misuse = i % 5 == 4
         version = rng.choice(["R2000", "R2004", "R2007", "R2010", "R2013", "R2018"])
         check_history(ctx, seed, length, misuse, version)
+    explode_target_sweep(ctx)
 
 
 def check_history(ctx, seed, length, misuse, version):
@@ -207,11 +319,64 @@ def check_history(ctx, seed, length, misuse, version):
                 ctx.fail(f"layout-lookup/{op[0]}", f"step {i} {req}: layout {l.name} lookup inconsistent", rep)
 
 
+def explode_target_sweep(ctx):
+    """O2: insert.explode(target_layout) for every kind of target - none (own layout), the own layout given explicitly,
+    another layout with content, an EMPTY layout, an empty block - the new entities must be content of the target (in
+    block order, then the TEXTs of the ATTRIBs), the INSERT must be destroyed, nothing else changes"""
+    import ezdxf
+
+    for version in ["R2000", "R2010", "R2018"]:
+        for src in ("msp", "psp", "blk"):
+            for tgt in ("none", "own", "other", "empty-layout", "empty-block"):
+                for nattr in (0, 2):
+                    doc = ezdxf.new(version)
+                    b = doc.blocks.new("B")
+                    b.add_line((0, 0), (1, 1))
+                    b.add_polyline2d([(0, 0), (1, 0)])
+                    holder = doc.blocks.new("HOLDER")
+                    lay = {"msp": doc.modelspace(), "psp": doc.layout("Layout1"), "blk": holder}[src]
+                    lay.add_circle((0, 0), 1)
+                    ins = lay.add_blockref("b", (1, 1))
+                    for i in range(nattr):
+                        ins.add_attrib("T%d" % i, "v", (0, i))
+                    other = doc.modelspace() if src != "msp" else doc.layout("Layout1")
+                    other.add_circle((5, 5), 1)
+                    target = {"none": None, "own": lay, "other": other, "empty-layout": doc.layouts.new("EMPTY"),
+                              "empty-block": doc.blocks.new("EMPTYBLK")}[tgt]
+                    expect = lay if target is None else target
+                    rep = {"op": "explode-target", "version": version, "src": src, "target": tgt, "nattr": nattr}
+                    ctx.count("O2 explode targets", (version, src, tgt, nattr), True)
+                    before = {br.dxf.name: [e.dxf.handle for e in br.block_layout] for br in doc.block_records}
+                    try:
+                        new = list(ins.explode(target) if target is not None else ins.explode())
+                    except Exception as e:  # noqa
+                        ctx.fail(f"explode-raised/{tgt}/{type(e).__name__}", f"{version} explode(target={tgt}) of an INSERT in {src}: {type(e).__name__}: {e}", rep)
+                        continue
+                    hs = [e.dxf.handle for e in new]
+                    if len(new) != 2 + nattr or [e.dxftype() for e in new] != ["LINE", "POLYLINE"] + ["TEXT"] * nattr:
+                        ctx.fail(f"explode-result/{tgt}", f"{version} explode(target={tgt}): returned {[e.dxftype() for e in new]}", rep)
+                    if ins.is_alive:
+                        ctx.fail(f"explode-insert-alive/{tgt}", f"{version} explode(target={tgt}): the INSERT is still alive", rep)
+                    for br in doc.block_records:
+                        now = [e.dxf.handle for e in br.block_layout]
+                        old = [h for h in before.get(br.dxf.name, []) if h != ins.dxf.handle] if False else before.get(br.dxf.name, [])
+                        want = [h for h in old if doc.entitydb.get(h) is not None and doc.entitydb.get(h).is_alive]
+                        if br.dxf.handle == expect.block_record_handle:
+                            want = want + hs
+                        if now != want:
+                            ctx.fail(f"explode-target/{tgt}/{src}", f"{version} explode(target={tgt}) of an INSERT in {src}: content of {br.dxf.name} is {now}, expected {want}", rep)
+                    for e in new:
+                        if e.dxf.owner != expect.block_record_handle:
+                            ctx.fail(f"explode-owner/{tgt}/{src}", f"{version} explode(target={tgt}): new {e.dxftype()} #{e.dxf.handle} has owner {e.dxf.owner}, target is {expect.block_record_handle}", rep)
+
+
 def replay(ctx, rep):
     n0 = len(ctx.failures)
     for f in rep.get("failing_inputs", []):
         r = f["replay"]
         if r.get("op") == "history":
             check_history(ctx, r["seed"], r["length"], r["misuse"], r["version"])
+        elif r.get("op") == "explode-target":
+            explode_target_sweep(ctx)
     bad = ctx.failures[n0:]
     return (not bad, "; ".join(x.key for x in bad) or "recorded histories pass now")
